@@ -75,7 +75,11 @@ class ReadOnlyCheck:
             "create: create|new|implicit x -o file|dir/|default-in-cwd x "
             "--prog 0/1/2 x --magnet x option sets x pre-existing output; "
             "judged on the before/after difference only",
-            "rename: target name free / taken / already correct",
+            "create also on a single-file payload whose own name ends in "
+            ".torrent with a derived output name in the payload's directory",
+            "rename: target name free / taken (by a file, by a directory, "
+            "with the current name differing only in case, with a relative "
+            "argument) / already correct",
         ]
         self.rule = (
             "full product of the configuration axes; state = one distinct "
@@ -205,8 +209,66 @@ class ReadOnlyCheck:
             yield {"head": head, "out": out, "prog": prog, "magnet": mag,
                    "opts": optset}
 
+    def run_create_single(self, g, res):
+        """A single-file payload whose own name ends in .torrent, output name
+        derived (no -o with cwd = its parent, or -o <parent>/)."""
+        seed = g["seed"]
+        version = {"v1": "1", "v2": "2", "hy": "3"}[g["version"]]
+        for pname in ("bundle.torrent", "bundle.bin", "torrent"):
+            for mode in ("cwd", "dir/", "elsewhere/"):
+                sb = world.fresh_dir("c18s_")
+                share = os.path.join(sb, "share")
+                other = os.path.join(sb, "other")
+                os.mkdir(share)
+                os.mkdir(other)
+                payload = os.path.join(share, pname)
+                world.write_file(payload, world.content(seed, 5, 40000))
+                world.write_file(os.path.join(share, "unrelated.txt"), b"keep")
+                argv = ["create", payload, "--meta-version", version,
+                        "--prog", "0"]
+                if mode == "cwd":
+                    cwd, odir = share, share
+                elif mode == "dir/":
+                    cwd, odir = other, share
+                    argv += ["-o", share + os.sep]
+                else:
+                    cwd, odir = share, other
+                    argv += ["-o", other + os.sep]
+                target = os.path.join(odir, pname + ".torrent")
+                before = world.snapshot(sb)
+                err = None
+                try:
+                    self.exec_cmd("cli", argv, cwd)
+                except BaseException as e:  # noqa
+                    err = type(e).__name__ + ":" + str(e)[:60]
+                after = world.snapshot(sb)
+                res.states += 1
+                res.transitions += 1
+                res.evals += 1
+                res.validated += 1
+                changed = diff(before, after)
+                trel = os.path.relpath(target, sb)
+                prel = os.path.relpath(payload, sb)
+                prob = None
+                if before.get(prel) != after.get(prel):
+                    prob = "payload-modified"
+                elif err:
+                    prob = "create-raised"
+                elif [c for c in changed if c != trel]:
+                    prob = "changes-other-path"
+                elif trel not in changed:
+                    prob = "output-not-written"
+                res.outcomes[prob or "ok"] += 1
+                if prob:
+                    res.violation(
+                        f"C18|create|{prob}|single-file-payload|out={mode}",
+                        {"kind": "create-single", "version": g["version"],
+                         "pname": pname, "mode": mode, "seed": seed},
+                        {"changed": changed[:6], "error": err})
+
     def run_create(self, g, res):
         seed = g["seed"]
+        self.run_create_single(g, res)
         version = {"v1": "1", "v2": "2", "hy": "3"}[g["version"]]
         for cc in self.create_cases(g.get("tier", "quick")):
             if cc["opts"] == "align" and version != "1":
@@ -275,12 +337,20 @@ class ReadOnlyCheck:
 
     def run_rename(self, g, res):
         seed = g["seed"]
-        for variant in ("free", "taken", "already-correct", "taken-by-dir"):
+        for variant in ("free", "taken", "already-correct", "taken-by-dir",
+                        "taken-case-variant", "taken-relative"):
             sb, root, mpath = build_sandbox(seed, g["version"], "intact")
             cwd = os.path.join(sb, "cwd")
             mdir = os.path.dirname(mpath)
             target = os.path.join(mdir, NAME + ".torrent")
             src = mpath
+            if variant == "taken-case-variant":
+                # the current name differs from the target only in case
+                src = os.path.join(mdir, NAME.upper() + ".Torrent")
+                os.rename(mpath, src)
+                world.write_file(target, b"someone else's file")
+            if variant == "taken-relative":
+                world.write_file(target, b"someone else's file")
             if variant == "taken":
                 world.write_file(target, b"someone else's file")
             elif variant == "taken-by-dir":
@@ -292,8 +362,11 @@ class ReadOnlyCheck:
                 raw = f.read()
             before = world.snapshot(sb)
             err = None
+            arg, rcwd = src, cwd
+            if variant == "taken-relative":
+                arg, rcwd = os.path.basename(src), mdir
             try:
-                self.exec_cmd("cli", ["rename", src], cwd)
+                self.exec_cmd("cli", ["rename", arg], rcwd)
             except BaseException as e:  # noqa
                 err = type(e).__name__
             after = world.snapshot(sb)
@@ -341,7 +414,9 @@ class ReadOnlyCheck:
     def replay(self, case):
         res = core.Result()
         g = {"version": case["version"], "seed": case["seed"],
-             "pstate": case.get("pstate", "intact"), "kind": case["kind"]}
+             "pstate": case.get("pstate", "intact"),
+             "kind": "create" if case["kind"] == "create-single"
+             else case["kind"]}
         self.run_group(g)
         r = self.run_group(g)
         out = []
@@ -355,6 +430,12 @@ class ReadOnlyCheck:
                 continue
             if case["kind"] == "rename" and c.get("variant") != \
                     case.get("variant"):
+                continue
+            if case["kind"] == "create-single" and (
+                    c.get("kind") != "create-single" or any(
+                        c.get(k) != case.get(k) for k in ("pname", "mode"))):
+                continue
+            if case["kind"] == "create" and c.get("kind") != "create":
                 continue
             out.append({"sig": v["sig"], "detail": v["detail"]})
         return out
